@@ -15,9 +15,9 @@ ACTIONS = ["DeprecatedForward", "Dispatch", "DirectToms", "DirectGrid", "EvalLo"
            "Bisect", "Converge", "GridEval", "GridInterp"]
 
 TIERS = {
-    "quick": dict(Shapes={1, 2, 3}, Scales={1, 2, 3, 4}, LevelIdx={1, 2, 3, 4, 5}, BoundsIdx={1, 2, 3, 4, 5, 6, 7}, GridIdx={1, 2, 3, 4, 5, 6, 7},
+    "quick": dict(Shapes={1, 2, 3}, Scales={1, 2, 3, 4, 5}, LevelIdx={1, 2, 3, 4, 5}, BoundsIdx={1, 2, 3, 4, 5, 6, 7}, GridIdx={1, 2, 3, 4, 5, 6, 7},
                   MaxBisect=1, MaxTotalBisect=1, EmitMod=1),
-    "thorough": dict(Shapes={1, 2, 3}, Scales={1, 2, 3, 4}, LevelIdx={1, 2, 3, 4, 5}, BoundsIdx={1, 2, 3, 4, 5, 6, 7}, GridIdx={1, 2, 3, 4, 5, 6, 7},
+    "thorough": dict(Shapes={1, 2, 3}, Scales={1, 2, 3, 4, 5}, LevelIdx={1, 2, 3, 4, 5}, BoundsIdx={1, 2, 3, 4, 5, 6, 7}, GridIdx={1, 2, 3, 4, 5, 6, 7},
                      MaxBisect=2, MaxTotalBisect=3, EmitMod=1),
 }
 REAL = {"quick": 6, "thorough": 60}
